@@ -56,8 +56,11 @@ def classify_problem(r, text, structured):
     if exp == "hasref":
         return "C13" if (structured and s["dir"] != "nokvp") else "C12"
     if exp == "missing":
+        # a token of one style written where the other style belongs (a key-value token inside the message literal, a
+        # message token among the arguments) is not one of the two insertions C03 allows
+        style = ("C03",) if ("token b'ref = " in text and "expected b'[ref: " in text) or ("token b'[ref: " in text and "expected b'ref = " in text) else ()
         if s["dir"] == "nokvp":
-            return "C14"
+            return ("C14",) + style if style else "C14"
         if structured and ("token" in text or "key-value inserted" in text):
             return ("C13", "C10")        # placement / terminator of the structured reference: both properties state it
         if s["msg"] == "custom":
@@ -324,11 +327,11 @@ def c13(tier):
     return v.finish()
 
 
-def c14(tier):
-    v = Verdict("C14", tier)
-    cases = tlc_cases(v, "intended/DirectivesT.cfg" if tier == "thorough" else "intended/DirectivesQ.cfg",
+def directive_packs(v, tier, cfg_tier=None):
+    """The files of Directives.tla: packed (250 cases per file) and a sample one case per file."""
+    t = cfg_tier or tier
+    cases = tlc_cases(v, "intended/DirectivesT.cfg" if t == "thorough" else "intended/DirectivesQ.cfg",
                       module="Directives.tla", tag="DIR")
-    binary = common.build_breadlog()
     packs = []
     uid = 2000
     for mode in ("structured", "unstructured"):
@@ -356,6 +359,13 @@ def c14(tier):
                 cur = []
         if cur:
             solo_groups.append((cur, mode == "structured"))
+    return packs, solo_groups
+
+
+def c14(tier):
+    v = Verdict("C14", tier)
+    binary = common.build_breadlog()
+    packs, solo_groups = directive_packs(v, tier)
     # in these files every statement is governed by the directive placement rules: any mismatch speaks about C14
     run_cases(binary, None, v, {"C14"}, "directives", packs=packs, relabel=lambda prop, r, text: "C14" if r is not None else prop,
               groups_extra=solo_groups)
@@ -470,6 +480,13 @@ def c03(tier):
         tree = {"big.rs": [S(10000 + i, ref=(5 if i % 7 == 3 else None)) for i in range(n)], "zero.rs": []}
         sc = rl.Scenario("big-%d" % n, tree, lock=100, structured=structured, crlf=crlf, pad=50000)
         rl.planned_runs(binary, sc, [[("edit", ""), ("edit", "")]], batch, v)
+    # the ID range runs out in the middle of a file (top of the range through the high embedding)
+    hi = rl.bl.U32MAX - 9
+    for structured in (False, True):
+        for lock in (8, 9, None):
+            sc = rl.Scenario("range-runs-out", {"f1.rs": [S(11), S(12), S(13, ref=hi + 7), S(14), S(15)], "f2.rs": [S(21), S(22)]},
+                             lock=lock, base=hi, structured=structured, pad=3000)
+            rl.planned_runs(binary, sc, [[("edit", ""), ("check", "")]], batch, v, sigbase={"embedding": "high"})
     # "an edit run changes a source file only by inserting tokens" also after an earlier run died: whatever that run left
     # behind (scratch files; all runs of a history have the same process ID) must not leak into the files.  Kill at
     # every scratch-file operation, then the developer removes code (shorter files), edit, check.
